@@ -42,8 +42,21 @@ def main():
         meta["demo_on_clean_rc"] = rc0
         rc, o = sh(["git", "-C", wt, "apply", os.path.join(seed_dir, "patch.diff")])
         meta["patch_applies"] = rc == 0
+        rebased = os.path.join(seed_dir, "patch.rebased.diff")
+        if rc != 0 and os.path.exists(rebased):
+            # /repo moved under the seed (repairs): the same edit ported to the current code
+            rc, o = sh(["git", "-C", wt, "apply", rebased])
+            meta["patch_applies"] = rc == 0
+            meta["rebased_patch_used"] = True
         if rc != 0:
             print("PATCH DOES NOT APPLY:", o)
+            meta["caught"] = None
+            meta["note"] = "patch no longer applies to /repo HEAD (the code it edits was repaired); last results kept"
+            old = json.load(open(os.path.join(out, "meta.json"))) if os.path.exists(os.path.join(out, "meta.json")) else {}
+            old["patch_applies_to_head"] = False
+            old["note"] = meta["note"]
+            if old:
+                json.dump(old, open(os.path.join(out, "meta.json"), "w"), indent=1)
             return 2
         rc1, o1 = sh(["/venv/bin/python", demo], cwd=wt, env=env, timeout=600)
         meta["demo_on_patched_rc"] = rc1
